@@ -161,7 +161,7 @@ def gen_C19(g, tier):
             xs = [g.choice([0.0, 1.0, -2.5, 1e300, -1e-300, g.r.uniform(-10, 10), 10 ** g.r.uniform(-30, 30)]) for _ in range(m)]
             if kind == 'e': xs[1] = abs(xs[1])
             items.append(kind + ' ' + ' '.join(dhex(x) for x in xs))
-        cs.append(Case('o.c19.multi %d %d %s' % (k, g.randint(0, 4), ' '.join(items)), 'orc', 'several-values-one-stream', check=multi_ok))
+        cs.append(Case('o.c19.multi %d %d %d %s' % (k, g.randint(0, 4), g.choice([0, 0, 1, 2, 3, 4, 6, 8, 9, 15]), ' '.join(items)), 'orc', 'several-values-one-stream', check=multi_ok))
     # round trips
     for _ in range(n):
         v, var = value(g), variance(g)
